@@ -143,7 +143,7 @@ TrAddrCheck == /\ Is("AddrCheck")
                /\ Flag(IF E.atReturn # E.sender \/ E.atEnd # E.sender THEN {"wrong-source-address"} ELSE {})
                /\ UNCHANGED <<closeStarted, closeDone, acc, delivered, nsched, ndrift, keyOf, itemKey, gap>>
 
-TrOther == /\ l <= Len(Trace) /\ E.ev \in {"ListenStart", "Replayed", "End"} /\ l' = l + 1
+TrOther == /\ l <= Len(Trace) /\ E.ev \in {"ListenStart", "Replayed", "End", "Free"} /\ l' = l + 1
            /\ UNCHANGED <<closeStarted, closeDone, acc, delivered, vio, nsched, ndrift, keyOf, itemKey, gap>>
 
 Next == TrSched \/ TrListenEnd \/ TrCloseStart \/ TrCloseEnd \/ TrAcceptStart \/ TrAcceptEnd \/ TrStuck
